@@ -988,6 +988,71 @@ def _nested_j_failures():
     return fails, n
 
 
+def _concurrent_state_failures():
+    """Bounded: commands that overlap on one project lose no state, on the real binaries.  In a FRESH project (the first command
+    creates .redo): P1 `redo a` starts and its script waits; P2 `redo-targets` / `redo-ood` run to completion beside it; P3
+    `redo b` starts and its script waits; then the scripts are released in either order.  With and without --no-log.  Every
+    command exits 0 without an error of redo's own; afterwards redo-targets lists a and b, redo-sources their sources, and
+    after an edit of a.src redo-ood lists a: the records of both builds are there.  -> (failures, n) or None"""
+    import time
+    bindir = build_redo_bin()
+    if not bindir:
+        return None
+    env = {k: v for k, v in os.environ.items() if not k.startswith('REDO') and k != 'MAKEFLAGS'}
+    env['PATH'] = bindir + ':' + env.get('PATH', '')
+    work = tempfile.mkdtemp(prefix='redo-verif-cs.', dir='/var/tmp')
+    fails, n = [], 0
+
+    def wait_for(path, secs=20):
+        t0 = time.time()
+        while not os.path.exists(path) and time.time() - t0 < secs:
+            time.sleep(0.02)
+        return os.path.exists(path)
+    try:
+        for nolog in (True, False):
+            for first_out in ('a', 'b'):
+                n += 1
+                proj = os.path.join(work, 'p%d' % n)
+                os.makedirs(proj)
+                for t in ('a', 'b'):
+                    open(os.path.join(proj, t + '.do'), 'w').write('redo-ifchange %s.src\n: >%s.started\nwhile [ ! -e %s.go ]; do sleep 0.05; done\nredo-ifchange %s.src2\ncat %s.src %s.src2\n' % (t, t, t, t, t, t))
+                    open(os.path.join(proj, t + '.src'), 'w').write(t + ' one\n')
+                    open(os.path.join(proj, t + '.src2'), 'w').write(t + ' two\n')
+                opt = ['--no-log'] if nolog else []
+                hist = 'fresh project; redo %s a (waits) | redo-targets; redo-ood | redo %s b (waits); release %s first' % (' '.join(opt), ' '.join(opt), first_out)
+                p1 = subprocess.Popen(['redo'] + opt + ['a'], cwd=proj, env=env, stdout=subprocess.PIPE, stderr=subprocess.PIPE, text=True)
+                ok = wait_for(os.path.join(proj, 'a.started'))
+                q1 = subprocess.run(['redo-targets'], cwd=proj, env=env, capture_output=True, text=True, timeout=60)
+                q2 = subprocess.run(['redo-ood'], cwd=proj, env=env, capture_output=True, text=True, timeout=60)
+                p3 = subprocess.Popen(['redo'] + opt + ['b'], cwd=proj, env=env, stdout=subprocess.PIPE, stderr=subprocess.PIPE, text=True)
+                ok = wait_for(os.path.join(proj, 'b.started')) and ok
+                order = ['a', 'b'] if first_out == 'a' else ['b', 'a']
+                procs = {'a': p1, 'b': p3}
+                rcs, errs = {}, {}
+                for t in order:
+                    open(os.path.join(proj, t + '.go'), 'w').close()
+                    try:
+                        out_, err_ = procs[t].communicate(timeout=60)
+                        rcs[t], errs[t] = procs[t].returncode, err_
+                    except subprocess.TimeoutExpired:
+                        procs[t].kill()
+                        rcs[t], errs[t] = None, 'timeout'
+                if not ok or rcs.get('a') != 0 or rcs.get('b') != 0 or q1.returncode != 0 or q2.returncode != 0:
+                    fails.append(dict(input=hist, observed='exit a=%s b=%s targets=%d ood=%d; %s' % (rcs.get('a'), rcs.get('b'), q1.returncode, q2.returncode, ((errs.get('a') or '') + (errs.get('b') or '') + q1.stderr + q2.stderr).strip()[-240:]),
+                                      clause='commands that overlap on one project succeed (none fails with an error of redo\'s own)'))
+                    continue
+                tg = sorted(subprocess.run(['redo-targets'], cwd=proj, env=env, capture_output=True, text=True, timeout=60).stdout.split())
+                sr = sorted(subprocess.run(['redo-sources'], cwd=proj, env=env, capture_output=True, text=True, timeout=60).stdout.split())
+                open(os.path.join(proj, 'a.src2'), 'w').write('a two, edited\n')
+                od = sorted(subprocess.run(['redo-ood'], cwd=proj, env=env, capture_output=True, text=True, timeout=60).stdout.split())
+                if tg != ['a', 'b'] or sr != ['a.do', 'a.src', 'a.src2', 'b.do', 'b.src', 'b.src2'] or od != ['a']:
+                    fails.append(dict(input=hist + '; afterwards redo-targets, redo-sources, edit a.src2, redo-ood', observed='targets %s, sources %s, out of date %s' % (tg, sr, od),
+                                      clause='the records written by each of the overlapping commands are all present afterwards'))
+    finally:
+        shutil.rmtree(work, ignore_errors=True)
+    return fails, n
+
+
 def _corpus_failures(prop):
     """Bounded: the demonstration scripts of the seeded changes kept for this property (seeded/<id>/demo/demo.sh, listed in
     seeded/corpus.json with the clause each one checks).  Each is a concrete history with the real binaries that exits 0
@@ -1178,6 +1243,13 @@ def conformance(prop, unit_names, pins_changed, labels_props):
             out.append(dict(oid='dofiles/start_self_arguments/args.temp_beside_target', msg='clause fails on the real binaries for a concrete input (bounded probe temp-collision, %d pairs)' % r[1],
                             where=REPO + '/src/builder.rs:start_self', site=None, text=hits[0]['clause'], rendered=json.dumps(hits[:6], indent=1), inputs=[h['input'] for h in hits],
                             fn='start_self_arguments', label='args.temp_beside_target', props=[prop]))
+    if prop == 'C16' and ('dbmode' in unit_names or 'txn' in unit_names or 'records' in unit_names or 'queries' in unit_names):
+        r = _concurrent_state_failures()
+        if r and r[0]:
+            hits = r[0]
+            out.append(dict(oid='dbmode/process_state_init_tx/init.transaction_finished', msg='clause fails on the real binaries for a concrete history (bounded probe concurrent-state, %d histories)' % r[1],
+                            where=REPO + '/src/state.rs:ProcessState::init', site=None, text=hits[0]['clause'], rendered=json.dumps(hits[:6], indent=1), inputs=[h['input'] for h in hits],
+                            fn='process_state_init_tx', label='init.transaction_finished', props=['C16']))
     if 'logs' in unit_names and prop in ('C10', 'C09', 'C18'):
         r = _lost_reader_failures()
         if r and r[0]:
@@ -1250,6 +1322,8 @@ def bounded(prop, unit_names, labels_props):
             extra.append(('cheatpipe', _cheatpipe_failures, 'tokens/setup_cheat_fds/setup.own_jobserver_owns_its_debts', lambda h: True))
             extra.append(('nested-j', _nested_j_failures, 'tokens/setup_token_fds/setup.explicit_j_means_own_jobserver', lambda h: True))
             extra.append(('conserve', _conserve_failures, 'tokens/do_force_return_tokens/exit.one_token', lambda h: True))
+        if prop == 'C16':
+            extra.append(('concurrent-state', _concurrent_state_failures, 'dbmode/process_state_init_tx/init.transaction_finished', lambda h: True))
         if prop == 'C14':
             extra.append(('ifcreate-args', _ifcreate_args_failures, 'gluebins/ifcreate_record/ifcreate.existing_path_is_error', lambda h: True))
         if prop in ('C04', 'C07'):
